@@ -68,7 +68,7 @@ def oracle_no_panic(cases, impl, hang, mode=None):
                 out.append(Finding('oracle', c, a['i'], 'panic: op "%s" panicked' % c.ops[a['i']], mode=mode))
                 break
         if hang == c.id:
-            out.append(Finding('oracle', c, len(steps_of(impl, c.id)), 'hang: operation did not return within 20 s', mode=mode))
+            out.append(Finding('oracle', c, len(steps_of(impl, c.id)), 'hang: operation did not return within 5 s', mode=mode))
     return out
 
 REFUSED = {'N', 'F'}
